@@ -89,7 +89,8 @@ def register(claim):
     claim('C10',
           technique='TLA+ session model (RefTest.tla) + argv case analysis (Argv.tla), TLC exhaustive; '
                     'every model transition replayed on the real ReferenceTest; recorded sessions validated '
-                    'by a TLC trace spec that reconstructs the regeneration table',
+                    'by a TLC trace spec that reconstructs the regeneration table; the session properties proved for arbitrary '
+                    'constants with TLAPS (RefTest_proofs.tla)',
           text='TLC checks OnlyOnRequest / NormalModeFrame / ExactlySelected / RegenThenPass on every reachable state of '
                'the regeneration-table x reference-directory model and ImplFlags = SpecFlags on every well-shaped argv of '
                '<= 3 (quick) or 4 (thorough) tokens over 22 spellings.  Every (state, action) pair of the model is '
